@@ -95,6 +95,38 @@ class Ctx:
         self.tier = tier
         self.X = Expander(repo)
         self._cg: CallGraph | None = None
+        from . import paths
+
+        paths.NONNULL_ORACLE = self._call_never_none
+        self._nn_cache: dict = {}
+
+    def _call_never_none(self, cfg, call) -> bool:
+        """Every resolved callee of the call is annotated with a return type that excludes None."""
+        import ast as _ast
+
+        key = id(call)
+        if key in self._nn_cache:
+            return self._nn_cache[key]
+        ok = False
+        try:
+            cs = self.cg.callees_of_call(cfg.func, call)
+            if cs:
+                ok = True
+                for g in cs:
+                    r = getattr(g.node, "returns", None)
+                    if r is None or g.name == "__init__":
+                        ok = g.name == "__init__" and ok
+                        if not ok:
+                            break
+                        continue
+                    txt = _ast.unparse(r)
+                    if "None" in txt or "Optional" in txt or "Any" in txt:
+                        ok = False
+                        break
+        except Exception:  # noqa: BLE001
+            ok = False
+        self._nn_cache[key] = ok
+        return ok
 
     @property
     def cg(self) -> CallGraph:
